@@ -87,29 +87,55 @@ def _run_cached(path, c, cm):
     return (pre, c, res, post, probes, variant)
 
 
-def parse_transitions(lines):
-    """lines: decoded Emit records {c, s, t}.  Returns calls_at, model_states."""
-    calls_at = {}
-    states = set()
-    for r in lines:
+class TransIndex:
+    """incremental index of the transitions TLC emitted: the model's state set and, per state, the calls it offers
+    (kept as compact JSON strings; nothing else of the transition is retained)"""
+
+    def __init__(self):
+        self.states = set()
+        self._calls = {}
+        self.n = 0
+
+    def add(self, r):
+        self.n += 1
         ks = W.key(r["s"])
-        states.add(ks)
-        states.add(W.key(r["t"]))
-        d = calls_at.setdefault(ks, {})
-        d.setdefault(W.key(r["c"]), r["c"])
-    return {k: list(v.values()) for k, v in calls_at.items()}, states
+        self.states.add(ks)
+        self.states.add(W.key(r["t"]))
+        self._calls.setdefault(ks, set()).add(W.key(r["c"]))
+
+    def get(self, ks, default=()):
+        c = self._calls.get(ks)
+        return [json.loads(x) for x in sorted(c)] if c else list(default)
+
+    def __contains__(self, ks):
+        return ks in self.states
+
+    def __len__(self):
+        return len(self.states)
+
+
+def parse_transitions(lines):
+    """lines: decoded Emit records {c, s, t}.  Returns (index, index): the index serves as calls_at and as state set."""
+    ix = TransIndex()
+    for r in lines:
+        ix.add(r)
+    return ix, ix
 
 
 def explore(consts, init_state, calls_at, model_states, *, caching=False, procs=16, max_records=None,
-            probe=None, vertex_cls=None, keep_records=True, probe_filter=None, cache_mode=None):
+            probe=None, vertex_cls=None, keep_records=True, probe_filter=None, cache_mode=None,
+            sink=None, probe_sink=None, chunk=30000, confirmed_out=None, probe_chunk=(5000, 150000)):
     """probe: a picklable spec for harness.probes.run, evaluated once in every confirmed state
-    (optionally only where probe_filter(state_key) is true)."""
+    (optionally only where probe_filter(state_key) is true).
+    sink / probe_sink: when given, records / probed entries are handed over in chunks and not kept."""
     ctx = mp.get_context("fork")
     confirmed = {W.key(init_state): []}
+    if confirmed_out is not None:
+        confirmed_out["c"] = confirmed        # shared with the sinks (replay paths of pre-states)
     frontier = [W.key(init_state)]
     records = []
     probed = []
-    nrec = 0
+    nrec = nprobed = nprobes = pending_probes = 0
     offmodel = 0
     level = 0
     with ctx.Pool(procs, initializer=_init_worker, initargs=(consts, init_state, caching, vertex_cls, cache_mode)) as pool:
@@ -125,15 +151,25 @@ def explore(consts, init_state, calls_at, model_states, *, caching=False, procs=
                         tasks.append((confirmed[ks], calls[i:i + 8], None))
             nxt = []
             for (path, _, _), outs in zip(tasks, pool.imap(_run_task, tasks, chunksize=4)):
+                if probe_sink is not None and (len(probed) >= probe_chunk[0] or pending_probes >= probe_chunk[1]):
+                    probe_sink(probed)
+                    probed = []
+                    pending_probes = 0
                 if outs and outs[0] == "probe":
                     _, S, pr, after = outs
-                    probed.append({"id": len(probed) + 1, "S": S, "probes": pr, "after": after, "path": path})
+                    nprobed += 1
+                    nprobes += len(pr)
+                    pending_probes += len(pr)
+                    probed.append({"id": nprobed, "S": S, "probes": pr, "after": after, "path": path})
                     continue
                 for tup in outs:
                     pre, c, res, post = tup[:4]
                     nrec += 1
                     rid = nrec
                     if cache_mode is not None:
+                        nprobed += 1
+                        nprobes += len(tup[4])
+                        pending_probes += len(tup[4])
                         probed.append({"id": rid, "S": post, "probes": tup[4], "path": path, "call": c,
                                        "pre": pre, "variant": tup[5]})
                     if keep_records:
@@ -146,14 +182,23 @@ def explore(consts, init_state, calls_at, model_states, *, caching=False, procs=
                             nxt.append(kp)
                     else:
                         offmodel += 1
+                if sink is not None and len(records) >= chunk:
+                    sink(records)
+                    records = []
+
             frontier = nxt
             level += 1
             if max_records and nrec >= max_records:
                 break
+    if sink is not None and records:
+        sink(records)
+        records = []
+    if probe_sink is not None and probed:
+        probe_sink(probed)
+        probed = []
     stats = {"model_states": len(model_states), "confirmed_states": len(confirmed),
              "unconfirmed_states": len(model_states) - len(confirmed), "offmodel_posts": offmodel,
-             "levels": level, "records": nrec, "probed_states": len(probed),
-             "probes": sum(len(p["probes"]) for p in probed)}
+             "levels": level, "records": nrec, "probed_states": nprobed, "probes": nprobes}
     if probe is not None or cache_mode is not None:
         return records, confirmed, stats, probed
     return records, confirmed, stats
